@@ -31,7 +31,8 @@ Before(c) == Cases[c].before
 After(c) == Cases[c].after
 MapOf(c) == Cases[c].map
 
-IsRnd(r) == r.op \in {"Random", "RandomPermutation"}
+\* graphs.rs Operation::is_randomizing
+IsRnd(r) == r.op \in {"Random", "RandomPermutation", "CuckooToPermutation", "DecomposeSwitchingMap"}
 IsPrfOp(r) == r.op \in {"PRF", "PermutationFromPRF"}
 IsKeyType(t) == t.k = "a" /\ t.st = "b" /\ t.sh = <<128>>
 
